@@ -644,6 +644,10 @@ class Randomizer(RandIF):
                 randomize_done(srcinfo, solve_info)
             for fm in field_model_l:
                 ConstraintOverrideRollbackVisitor.rollback(fm)
+            # Inline constraints can reach (dynamic) constraint blocks 
+            # of the object that were expanded for this call as well
+            for c in constraint_l:
+                ConstraintOverrideRollbackVisitor.rollback(c)
 
         visited = [] 
         for fm in field_model_l:
